@@ -1,5 +1,6 @@
 /- C19, part 4: pools in the section – `embedPool`, `layout`, the Compiler's local/global pools. -/
 import AsmjitVerif.Model.ConstPoolEmit
+import AsmjitVerif.Model.ConstPool32
 import AsmjitVerif.Lemmas.ConstPoolImage
 namespace AsmjitVerif.ConstPool
 open Spec
@@ -414,5 +415,27 @@ theorem int32_of_lt (n : Nat) (h : n < 2 ^ 31) : int32 n = Int.ofNat n := by
   unfold int32
   have : n % 2 ^ 32 = n := Nat.mod_eq_of_lt (by omega)
   simp only [this, h, if_true]
+
+/-! ### 32-bit node offsets -/
+
+theorem mem_getAt_of_mem {α : Type} (t : List (List α)) (l : List α) (h : l ∈ t) : ∃ i, getAt t i = l := by
+  induction t with
+  | nil => simp at h
+  | cons x xs ih =>
+    rcases List.mem_cons.1 h with rfl | h'
+    · exact ⟨0, rfl⟩
+    · obtain ⟨i, hi⟩ := ih h'; exact ⟨i + 1, hi⟩
+
+theorem wrapTree_id (t : List (List Node)) (h : ∀ i n, n ∈ getAt t i → n.offset < 2 ^ 32) : wrapTree t = t := by
+  unfold wrapTree
+  conv => rhs; rw [← List.map_id t]
+  apply List.map_congr_left
+  intro l hl
+  obtain ⟨i, hi⟩ := mem_getAt_of_mem t l hl
+  conv => rhs; rw [id, ← List.map_id l]
+  apply List.map_congr_left
+  intro n hn
+  have := h i n (hi ▸ hn)
+  simp [wrapNode, u32, Nat.mod_eq_of_lt this]
 
 end AsmjitVerif.ConstPool
